@@ -2013,6 +2013,12 @@ class NumpyProxy:
             return False
         return numpy.isnan(x, *a, **k)
 
+    def isclose(self, a, b, rtol=1e-05, atol=1e-08, equal_nan=False):
+        # scalar cells never reach __array_function__: |a - b| <= atol + rtol*|b| as numpy documents it
+        if isinstance(a, SV) or isinstance(b, SV):
+            return abs(a - b) <= (atol + rtol * abs(b))
+        return numpy.isclose(a, b, rtol=rtol, atol=atol, equal_nan=equal_nan)
+
     def floor(self, x, *a, **k):
         return self._scalar_or("floor", sym.sv_floor, x, *a, **k)
 
